@@ -48,6 +48,8 @@ type Term struct {
 	Name   string // for variables
 	id     int
 	ctx    *TermCtx
+	fp     bool // mentions a floating-point term
+	leaf   int8 // 1: an ite tree whose leaves are all constants, 2: not
 }
 
 var dbgF *os.File
@@ -120,7 +122,12 @@ func mk(op string, s Sort, p1, p2 int, args ...*Term) *Term {
 		return t
 	}
 	ctx.seq++
-	t := &Term{Op: op, Args: args, S: s, P1: p1, P2: p2, id: ctx.seq, ctx: ctx}
+	t := &Term{Op: op, Args: args, S: s, P1: p1, P2: p2, id: ctx.seq, ctx: ctx, fp: s.K == 2}
+	for _, a := range args {
+		if a.fp || a.S.K == 2 {
+			t.fp = true
+		}
+	}
 	ctx.tab[k] = t
 	return t
 }
@@ -131,7 +138,7 @@ func (ctx *TermCtx) Var(name string, s Sort) *Term {
 		return t
 	}
 	ctx.seq++
-	t := &Term{Op: "var", S: s, Name: name, id: ctx.seq, ctx: ctx}
+	t := &Term{Op: "var", S: s, Name: name, id: ctx.seq, ctx: ctx, fp: s.K == 2}
 	ctx.tab[k] = t
 	return t
 }
@@ -225,11 +232,12 @@ func Eq(a, b *Term) *Term {
 	if a.S.K == 2 {
 		return mk("fp.eq", BoolS, 0, 0, a, b)
 	}
-	// (= (ite c x y) k) with constants: simplify
-	if b.Const && a.Op == "ite" && a.Args[1].Const && a.Args[2].Const {
+	// (= (ite c x y) k) where every leaf of the ite tree is a constant: push the
+	// comparison to the leaves (collapses to false when no leaf equals k)
+	if b.Const && a.Op == "ite" && constLeaves(a) {
 		return Ite(a.Args[0], Eq(a.Args[1], b), Eq(a.Args[2], b))
 	}
-	if a.Const && b.Op == "ite" && b.Args[1].Const && b.Args[2].Const {
+	if a.Const && b.Op == "ite" && constLeaves(b) {
 		return Eq(b, a)
 	}
 	return mk("=", BoolS, 0, 0, a, b)
@@ -352,9 +360,34 @@ func Ashr(a, b *Term) *Term {
 		return uint64(sx >> y), true
 	})
 }
+
+// constLeaves: t is a constant or an ite tree over constants (bounded size).
+func constLeaves(t *Term) bool {
+	if t.Const {
+		return true
+	}
+	if t.Op != "ite" {
+		return false
+	}
+	if t.leaf == 0 {
+		if constLeaves(t.Args[1]) && constLeaves(t.Args[2]) {
+			t.leaf = 1
+		} else {
+			t.leaf = 2
+		}
+	}
+	return t.leaf == 1
+}
+
 func cmp(op string, a, b *Term, f func(x, y uint64, w int) bool) *Term {
 	if a.Const && b.Const {
 		return BoolT(f(a.V, b.V, a.S.W))
+	}
+	if b.Const && a.Op == "ite" && constLeaves(a) {
+		return Ite(a.Args[0], cmp(op, a.Args[1], b, f), cmp(op, a.Args[2], b, f))
+	}
+	if a.Const && b.Op == "ite" && constLeaves(b) {
+		return Ite(b.Args[0], cmp(op, a, b.Args[1], f), cmp(op, a, b.Args[2], f))
 	}
 	if a == b {
 		return BoolT(f(0, 0, a.S.W))
